@@ -18,8 +18,9 @@ import (
 // ilAction is one step of an interleaving script: a line sent to the driver or a move of
 // the harness (which owns the progress of the gated searches).
 type ilAction struct {
-	Kind string  `json:"kind"` // cmd | position | barrier | release | releaseall | sleep | eof
+	Kind string  `json:"kind"` // cmd | position | badposition | barrier | release | releaseall | sleep | eof
 	Line string  `json:"line,omitempty"`
+	Note string  `json:"note,omitempty"` // badposition: what is wrong with the line
 	Pos  *posCmd `json:"position,omitempty"`
 	N    int     `json:"n,omitempty"` // release: which held search (mod count); sleep: microseconds
 }
@@ -316,6 +317,31 @@ var checkC16 = def("C16/interleave", func(c ilCase) error {
 				gos[len(gos)-1].mayEnd = true
 			}
 			labels = append(labels, "position")
+		case "badposition":
+			// a malformed position line (its last move is not a legal move): the driver may go on or
+			// shut down (the unchanged one logs and shuts down), but it must do one of the two
+			if !s.send(a.Line) {
+				return fmt.Errorf("step %d: driver stopped reading input before %q", i, a.Line)
+			}
+			releaseFirstIterations()
+			labels = append(labels, "bad-position:"+a.Note)
+			if len(heldEvents) > 0 {
+				labels = append(labels, "shutdown-with-search-in-flight")
+			}
+			switch why := s.barrier(); why {
+			case "":
+				// still serving: the script ends here with quit (the game it holds is unspecified)
+			case "driver shut down":
+				if err := shutdown(i, a.Line); err != nil {
+					return err
+				}
+			default:
+				return fmt.Errorf("step %d: after the malformed line %q the driver neither goes on nor shuts down: %s", i, a.Line, why)
+			}
+			if len(gos) > 0 {
+				gos[len(gos)-1].superseded = true
+				gos[len(gos)-1].mayEnd = true
+			}
 		case "cmd":
 			f := strings.Fields(a.Line)
 			verb := ""
@@ -363,7 +389,7 @@ var checkC16 = def("C16/interleave", func(c ilCase) error {
 				if len(gos) > 0 {
 					gos[len(gos)-1].launchHi = launchesBefore
 				}
-				if strings.Contains(a.Line, "movetime") || strings.Contains(a.Line, "wtime") || strings.Contains(a.Line, "btime") || !c.Gated {
+				if strings.Contains(a.Line, "movetime") || strings.Contains(a.Line, "wtime") || strings.Contains(a.Line, "btime") || strings.Contains(a.Line, "movestogo") || !c.Gated {
 					rec.mayEnd = true
 				}
 				gos = append(gos, rec)
@@ -524,6 +550,11 @@ func genIlCase(t *rapid.T) ilCase {
 				line = fmt.Sprintf("go movetime %d", rapid.SampledFrom([]int{1, 5, 30}).Draw(t, "mt"))
 			default:
 				line = fmt.Sprintf("go depth 3 wtime %d btime 500", rapid.SampledFrom([]int{50, 500}).Draw(t, "wt"))
+				if rapid.IntRange(0, 2).Draw(t, "oddclock") == 0 {
+					// flagged clocks, only one side's clock, moves-to-go without clocks
+					line = rapid.SampledFrom([]string{"go wtime 0 btime 0", "go wtime -40 btime -40", "go wtime 60000", "go btime 60000", "go movestogo 5",
+						"go wtime 1 btime 1 movestogo 1", "go depth 2 wtime 0 btime 0", "go wtime 0 btime 0 movestogo 0"}).Draw(t, "clockline")
+				}
 			}
 			if !c.Gated && (line == "go infinite" || (line == "go" && c.Engine == "morlock")) {
 				// ungated unlimited searches are always followed by a stop a little later
@@ -584,6 +615,48 @@ func genIlCase(t *rapid.T) ilCase {
 		case 17:
 			c.Actions = append(c.Actions, ilAction{Kind: "barrier"})
 		case 18:
+			if rapid.IntRange(0, 3).Draw(t, "badpos") == 0 {
+				base := posCmd{}
+				if lastPos != nil && rapid.Bool().Draw(t, "extendlast") {
+					base = posCmd{FEN: lastPos.FEN, Moves: append([]string(nil), lastPos.Moves...)}
+				} else if rapid.Bool().Draw(t, "ending") {
+					gc, _ := gen.Play(t, matingEnding(t), 6, gen.Policy{1, 0, 0, 1, 3, 0, 0, 1, 1, 3})
+					base.FEN, base.Moves = gc.FEN, gc.Moves
+				} else {
+					gc, _ := gen.Game(t, 30)
+					base.FEN, base.Moves = gc.FEN, gc.Moves
+				}
+				bg, err := base.game()
+				if err != nil {
+					continue
+				}
+				note, bad := "not-a-move", rapid.SampledFrom([]string{"zzzz", "e2e9", "", "e2", "e7e8k", "0000"}).Draw(t, "garbage")
+				legal := map[string]bool{}
+				for _, m := range bg.Cur().Pos.Legal() {
+					legal[m.String()] = true
+				}
+				var illegal []string
+				for _, m := range bg.Cur().Pos.PseudoLegal() {
+					if !legal[m.String()] {
+						illegal = append(illegal, m.String())
+					}
+				}
+				switch k := rapid.IntRange(0, 3).Draw(t, "badkind"); {
+				case k <= 1 && len(illegal) > 0:
+					note, bad = "pseudo-legal-but-illegal", illegal[rapid.IntRange(0, len(illegal)-1).Draw(t, "which")]
+				case k == 2:
+					// a well-formed move that is not even pseudo-legal: from an empty square
+					for sq := 0; sq < 64; sq++ {
+						if bg.Cur().Pos.Sq[sq] == 0 {
+							note, bad = "not-pseudo-legal", oracle.SqName(sq)+oracle.SqName((sq+9)%64)
+							break
+						}
+					}
+				}
+				base.Moves = append(base.Moves, bad)
+				c.Actions = append(c.Actions, ilAction{Kind: "badposition", Line: base.text(), Note: note})
+				return c
+			}
 			if rapid.IntRange(0, 3).Draw(t, "end") == 0 {
 				if rapid.Bool().Draw(t, "eof") {
 					c.Actions = append(c.Actions, ilAction{Kind: "eof"})
